@@ -229,8 +229,9 @@ func toInt32(value Value) int32 {
 		return 0
 	}
 
-	// Convert to int64 before int32 to force correct wrapping.
-	return int32(int64(floatValue))
+	// Reduce modulo 2^32 first (the conversion of a float beyond the int64 range is
+	// undefined), then convert to int64 before int32 to force correct wrapping.
+	return int32(int64(math.Mod(floatValue, 4294967296)))
 }
 
 func toUint32(value Value) uint32 {
@@ -252,8 +253,9 @@ func toUint32(value Value) uint32 {
 		return 0
 	}
 
-	// Convert to int64 before uint32 to force correct wrapping.
-	return uint32(int64(floatValue))
+	// Reduce modulo 2^32 first (the conversion of a float beyond the int64 range is
+	// undefined), then convert to int64 before uint32 to force correct wrapping.
+	return uint32(int64(math.Mod(floatValue, 4294967296)))
 }
 
 // ECMA 262 - 6.0 - 7.1.8.
@@ -272,8 +274,9 @@ func toUint16(value Value) uint16 {
 		return 0
 	}
 
-	// Convert to int64 before uint16 to force correct wrapping.
-	return uint16(int64(floatValue))
+	// Reduce modulo 2^32 first (the conversion of a float beyond the int64 range is
+	// undefined), then convert to int64 before uint16 to force correct wrapping.
+	return uint16(int64(math.Mod(floatValue, 4294967296)))
 }
 
 // toIntSign returns sign of a number converted to -1, 0 ,1.
